@@ -23,7 +23,7 @@ pub fn property() -> Property {
             "tokio paused clock with auto-advance; ticks of the periodic reaper happen at creation + k * interval",
             "which survivor is kept is left open; an entry idle for exactly the timeout may go either way",
         ],
-        families: vec![(Box::new(PoolFam), 1_500, 40_000), (Box::new(crate::props::e2e::InUseFam), 16, 160)],
+        families: vec![(Box::new(PoolFam), 20_000, 160_000), (Box::new(crate::props::e2e::InUseFam), 16, 160)],
     }
 }
 
